@@ -82,6 +82,60 @@ def run_once(cfg, chunks=None, order=None):
     return out
 
 
+def stir(cfg):
+    """what else may have happened in the process before the model under test is built: another model is built and run,
+    parameter overrides of every kind are applied to its components, and it is run again.  Nothing of this may reach a
+    model built afterwards.  Errors are ignored (they are other properties' business)."""
+    try:
+        with contextlib.redirect_stdout(io.StringIO()):
+            from wsimod.core import constants
+            m = NG.build(cfg, "float")
+            m.run(dates=m.dates, verbose=False)
+            adds = list(constants.ADDITIVE_POLLUTANTS)
+            # ... and default-constructed components of every registered class are overridden as well
+            from wsimod.nodes.nodes import NODES_REGISTRY
+            zoo = []
+            for name, cls in sorted(NODES_REGISTRY.items()):
+                try:
+                    zoo.append(cls(name="zoo_" + name))
+                except Exception:
+                    pass
+            for node in list(m.nodes.values()) + zoo:
+                cls = type(node).__name__
+                ovs = []
+                if hasattr(node, "process_parameters"):
+                    ovs.append({"process_parameters": {x: {"constant": 0.5, "exponent": 1.01} for x in adds},
+                                "liquor_multiplier": {"volume": 0.05}, "percent_solids": 0.1})
+                if hasattr(node, "pollutant_load"):
+                    ovs.append({"pollutant_load": {x: 0.123 for x in adds}})
+                if getattr(node, "decays", None):
+                    ovs.append({"decays": {x: {"constant": 0.2, "exponent": 1.02} for x in adds[:1]}})
+                if hasattr(node, "leakage"):
+                    ovs.append({"leakage": 0.05})
+                if hasattr(node, "pipe_timearea"):
+                    ovs.append({"pipe_timearea": {0: 0.5, 1: 0.5}})
+                for o in ovs:
+                    try:
+                        node.apply_overrides(o)
+                    except Exception:
+                        pass
+                for sf in getattr(node, "surfaces", []) or []:
+                    try:
+                        sf.apply_overrides({"pollutant_load": {x: 0.01 for x in adds}, "area": 3.0})
+                    except Exception:
+                        pass
+            for arc in m.arcs.values():
+                try:
+                    arc.apply_overrides({"capacity": 7.0, "preference": 2.0})
+                except Exception:
+                    pass
+            m.run(dates=m.dates, verbose=False)
+    except Exception:
+        pass
+    finally:
+        NG.set_pollutants("default")
+
+
 def first_diff(a, b):
     if a["err"] != b["err"]:
         return f"error {a['err']!r} vs {b['err']!r}"
@@ -122,6 +176,13 @@ def mutate(r, cfg):
         k[0] += 1
         cfg["arcs"].append({"name": f"{a}-{b}-x{k[0]}", "type_": "Arc", "in_port": a, "out_port": b,
                             "capacity": NG.UNBOUNDED if cap is None else cap})
+    if r.random() < 0.5:
+        # components that rely on the library's default parameters (the place where state shared between
+        # instances would live)
+        for n in cfg["nodes"]:
+            if n["type_"] in ("WWTW", "FWTW", "WTW"):
+                for key in ("process_parameters", "liquor_multiplier", "percent_solids"):
+                    n.pop(key, None)
     if r.random() < 0.7:
         rr = [a for a in cfg["arcs"] if a["type_"] == "Arc" and types[a["in_port"]] == "River" and types[a["out_port"]] == "River"]
         other = [a for a in cfg["arcs"] if a["type_"] == "Arc" and types[a["in_port"]] in ("River", "Catchment")
@@ -180,6 +241,8 @@ def worker(argv):
     """--worker target.json other.json|- order-json|- : run other (if given) first, then target (river discharge order
     forced if given); print digest and the river order the model was built with"""
     pre = run_once(NG.cfg_from_json(json.load(open(argv[1])))) if argv[1] != "-" else None
+    if pre is not None:
+        stir(NG.cfg_from_json(json.load(open(argv[1]))))
     res = run_once(NG.cfg_from_json(json.load(open(argv[0]))), order=json.loads(argv[2]) if argv[2] != "-" else None)
     print("C13RESULT " + json.dumps({"digest": digest([res["rows"], res["err"]]), "order": res["order"], "err": res["err"],
                                      "pre_err": pre["err"] if pre else None, "rows": len(res["rows"])}))
